@@ -135,6 +135,16 @@ def stepLoaded (d : DSt) (st : St) (ts : List String) : DSt × String :=
   | ["intern", g, r] => match g.toNat?, r.toNat? with
       | some _, some _ => readOut d st "interned"
       | _, _ => bad d
+  | ["internscale", n] => match n.toNat? with
+      | some _ => readOut d st "interned"
+      | none => bad d
+  -- the late kind of the scale probe is kind Z (code 25), one handle whatever was interned before
+  | ["addlate", e] => match entOf e with
+      | some e => apply d st (.addKinds e [some 25])
+      | none => bad d
+  | ["dellate", e] => match entOf e with
+      | some e => apply d st (.deleteKinds e [25])
+      | none => bad d
   | ["hold", e] => match entOf e with
       | some e =>
         let hs' := d.hs.hold e
